@@ -299,6 +299,178 @@ def create_functions(inp):
     return {"checks": res}
 
 
+def _integrity(net):
+    """references to missing junctions / pipes"""
+    bad = []
+    from pandapipes.toolbox import element_junction_tuples
+    for t, c in element_junction_tuples(net=net):
+        if t not in net or not len(net[t]):
+            continue
+        col = net[t][c]
+        if t == "valve" and c == "element":
+            pi = net[t]["et"] == "pi"
+            miss = col[pi][~col[pi].isin(net.pipe.index)]
+            if len(miss):
+                bad.append((t, c, "pipe", miss.tolist()))
+            col = col[~pi]
+        miss = col[~col.isin(net.junction.index)]
+        if len(miss):
+            bad.append((t, c, "junction", miss.tolist()))
+    return bad
+
+
+def _rows(net, skip_cols=()):
+    out = {}
+    import pandas as pd
+    for k in net.keys():
+        v = net[k]
+        if isinstance(v, pd.DataFrame) and not k.startswith("res_") and not k.startswith("_") and k != "controller":
+            for idx, r in v.iterrows():
+                out[(k, idx)] = tuple((c, None if x != x else x) for c, x in r.items())
+    return out
+
+
+def toolbox_ops(inp):
+    import copy
+    import pandapipes as pp
+    from handlers import _full_net
+    res = {k: {"ok": True, "cases": 0, "witness": None} for k in (
+        "reindex-junctions-results-unchanged", "reindex-pipes-results-unchanged", "continuous-index-results-unchanged",
+        "drop-keeps-integrity-and-other-elements", "fuse-keeps-integrity-and-other-elements", "subnet-integrity-and-results")}
+
+    def note(k, w):
+        res[k]["ok"] = False
+        if res[k]["witness"] is None:
+            res[k]["witness"] = w
+    labelings = [([0, 1, 2, 3, 4, 5, 6, 7], [10, 11, 12, 13, 14]), ([0, 1, 2, 3, 4, 5, 6, 7], [0, 1, 2, 3, 4]),
+                 ([5, 3, 9, 1, 12, 7, 2, 30], [3, 1, 7, 9, 2])]
+
+    def results(net):
+        pp.pipeflow(net, mode="sequential")
+        return {t: net["res_" + t].sort_index().values.astype(float) for t in ("junction", "pipe", "valve", "sink", "press_control",
+                                                                               "heat_exchanger", "ext_grid")}
+
+    def same(a, b):
+        return all(a[t].shape == b[t].shape and np.allclose(a[t], b[t], rtol=1e-7, atol=1e-9, equal_nan=True) for t in a)
+    for jl, pl in labelings:
+        base = _full_net(pp, jl, pl)
+        ref = results(copy.deepcopy(base))
+        # relabelling: order-preserving maps so that sort_index() keeps corresponding rows aligned
+        for name, lk in (("shift", {j: j + 100 for j in jl}), ("onto-pipe-labels", {j: 2 * j + 1 for j in jl}),
+                         ("partial", {jl[2]: max(jl) + 1000})):
+            net = copy.deepcopy(base)
+            res["reindex-junctions-results-unchanged"]["cases"] += 1
+            try:
+                pp.reindex_junctions(net, dict(lk))
+                bad = _integrity(net)
+                order_preserving = name != "partial"
+                if bad or (order_preserving and not same(ref, results(net))):
+                    note("reindex-junctions-results-unchanged", {"labels": [jl, pl], "lookup": name, "dangling": bad})
+                if not order_preserving:
+                    results(net)
+            except Exception as e:  # noqa
+                note("reindex-junctions-results-unchanged", {"labels": [jl, pl], "lookup": name, "error": "%s: %s" % (type(e).__name__, str(e)[:120])})
+        for name, lk in (("shift", {p: p + 50 for p in pl}), ("onto-junction-labels", {p: 2 * p + 1 for p in pl})):
+            net = copy.deepcopy(base)
+            res["reindex-pipes-results-unchanged"]["cases"] += 1
+            try:
+                pp.reindex_pipes(net, dict(lk))
+                bad = _integrity(net)
+                if bad or not same(ref, results(net)):
+                    note("reindex-pipes-results-unchanged", {"labels": [jl, pl], "lookup": name, "dangling": bad})
+            except Exception as e:  # noqa
+                note("reindex-pipes-results-unchanged", {"labels": [jl, pl], "lookup": name, "error": "%s: %s" % (type(e).__name__, str(e)[:120])})
+        net = copy.deepcopy(base)
+        res["continuous-index-results-unchanged"]["cases"] += 1
+        try:
+            pp.create_continuous_elements_index(net)
+            bad = _integrity(net)
+            r = results(net)
+            # sorted labels keep the relative order, so sort_index() alignment is preserved
+            if bad or not same(ref, r):
+                note("continuous-index-results-unchanged", {"labels": [jl, pl], "dangling": bad})
+        except Exception as e:  # noqa
+            note("continuous-index-results-unchanged", {"labels": [jl, pl], "error": "%s: %s" % (type(e).__name__, str(e)[:120])})
+        # drops
+        for kind, items in (("junction", jl), ("pipe", pl), ("at", jl)):
+            for x in items:
+                net = copy.deepcopy(base)
+                before = _rows(net)
+                res["drop-keeps-integrity-and-other-elements"]["cases"] += 1
+                try:
+                    if kind == "junction":
+                        pp.drop_junctions(net, [x])
+                    elif kind == "pipe":
+                        pp.drop_pipes(net, [x])
+                    else:
+                        pp.drop_elements_at_junctions(net, [x])
+                    bad = _integrity(net) if kind != "at" else []
+                    after = _rows(net)
+                    changed = [k for k in after if before.get(k) != after[k]]
+                    # a surviving row is unchanged; a removed row referenced the dropped item (directly or through its pipe)
+                    wrongly = []
+                    for k in before:
+                        if k in after:
+                            continue
+                        d = dict(before[k])
+                        refs_j = [d[c] for c in d if "junction" in c] + ([d["element"]] if k[0] == "valve" and d.get("et") == "ju" else [])
+                        refs_p = [d["element"]] if k[0] == "valve" and d.get("et") == "pi" else []
+                        dropped_pipes = [q for (t, q) in before if t == "pipe" and ("pipe", q) not in after]
+                        okrow = (kind in ("junction", "at") and (x in refs_j or (k[0] == "junction" and k[1] == x and kind == "junction")
+                                                                 or any(q in refs_p for q in dropped_pipes)
+                                                                 or (k[0] == "junction_geodata" and k[1] == x))) or \
+                                (kind == "pipe" and ((k[0] in ("pipe", "pipe_geodata") and k[1] == x) or x in refs_p))
+                        if not okrow:
+                            wrongly.append(k)
+                    if bad or changed or wrongly:
+                        note("drop-keeps-integrity-and-other-elements", {"labels": [jl, pl], "drop": [kind, x], "dangling": bad,
+                                                                         "changed_rows": str(changed)[:200], "wrongly_removed": str(wrongly)[:200]})
+                except Exception as e:  # noqa
+                    note("drop-keeps-integrity-and-other-elements", {"labels": [jl, pl], "drop": [kind, x],
+                                                                     "error": "%s: %s" % (type(e).__name__, str(e)[:120])})
+        # fuse
+        for a, b in ((0, 1), (2, 3), (4, 1), (6, 7)):
+            net = copy.deepcopy(base)
+            before = _rows(net)
+            res["fuse-keeps-integrity-and-other-elements"]["cases"] += 1
+            try:
+                pp.fuse_junctions(net, jl[a], [jl[b]])
+                bad = _integrity(net)
+                after = _rows(net)
+                wrong = []
+                for k in before:
+                    if k[0] in ("junction", "junction_geodata") and k[1] == jl[b]:
+                        continue
+                    if k not in after:
+                        wrong.append(("removed", k))
+                        continue
+                    d0, d1 = dict(before[k]), dict(after[k])
+                    for c in d0:
+                        isref = ("junction" in c) or (k[0] == "valve" and c == "element" and d0.get("et") == "ju")
+                        exp = jl[a] if (isref and d0[c] == jl[b]) else d0[c]
+                        if d1[c] != exp:
+                            wrong.append((k, c, d0[c], d1[c]))
+                if bad or wrong:
+                    note("fuse-keeps-integrity-and-other-elements", {"labels": [jl, pl], "fuse": [jl[a], jl[b]], "dangling": bad,
+                                                                     "wrong": str(wrong)[:300]})
+            except Exception as e:  # noqa
+                note("fuse-keeps-integrity-and-other-elements", {"labels": [jl, pl], "fuse": [jl[a], jl[b]],
+                                                                 "error": "%s: %s" % (type(e).__name__, str(e)[:120])})
+        # subnets
+        for sel in (list(jl), [jl[k] for k in (0, 1, 2, 3)], [jl[k] for k in (0, 1, 4, 5, 6, 7)]):
+            res["subnet-integrity-and-results"]["cases"] += 1
+            try:
+                sub = pp.select_subnet(copy.deepcopy(base), sel)
+                bad = _integrity(sub)
+                if bad:
+                    note("subnet-integrity-and-results", {"labels": [jl, pl], "junctions": sel, "dangling": bad})
+                if len(sel) == len(jl) and not same(ref, results(sub)):
+                    note("subnet-integrity-and-results", {"labels": [jl, pl], "junctions": sel, "what": "complete subnet gives other results"})
+            except Exception as e:  # noqa
+                note("subnet-integrity-and-results", {"labels": [jl, pl], "junctions": sel, "error": "%s: %s" % (type(e).__name__, str(e)[:120])})
+    return {"checks": res}
+
+
 def main():
     inp = json.load(sys.stdin)
     fn = globals()[inp["what"]]
